@@ -161,6 +161,9 @@ pub fn c04(ctx: &Ctx) -> Collector {
     // a forced mode less dense than the content needs, up to and beyond the version-40 capacity of the forced mode
     // (a build that "helps" by falling back to the content's own mode reports a mode the caller did not force)
     run_space(&col, 9, &spaces::s_cross(false), &p, true, &no_extra);
+    // payloads that begin like documents do (byte-order marks, schemes, record prefixes, line ends): the mode indicator
+    // in the symbol is the reported mode whatever the first bytes are
+    run_space(&col, 10, &s_corpus(), &p, true, &no_extra);
     if ctx.tier.thorough() {
         run_space(&col, 3, &spaces::s_len(Family::Ctr, 7200), &p, true, &no_extra);
     }
